@@ -613,6 +613,14 @@ impl ArrayBuffer {
                     .with_message("ArrayBuffer.prototype.resize called with invalid `this`")
             })?;
 
+        // 2. (cont.) A fixed-length buffer has no [[ArrayBufferMaxByteLength]] internal slot: this must be
+        // observed before `newLength` is coerced.
+        if buf.borrow().data().is_fixed_len() {
+            return Err(JsNativeError::typ()
+                .with_message("ArrayBuffer.resize: cannot resize a fixed-length buffer")
+                .into());
+        }
+
         // 4. Let newByteLength be ? ToIndex(newLength).
         let new_byte_length = args.get_or_undefined(0).to_index(context)?;
 
@@ -735,10 +743,18 @@ impl ArrayBuffer {
                     .into());
             };
 
-            // 26. Perform CopyDataBlockBytes(toBuf, 0, fromBuf, first, newLen).
+            // 26. Let currentLen be O.[[ArrayBufferByteLength]].
+            // 27. If first < currentLen, then
+            //     a. Let count be min(newLen, currentLen - first).
+            //     b. Perform CopyDataBlockBytes(toBuf, 0, fromBuf, first, count).
+            // NOTE: the coercion of `start`/`end` may have shrunk a resizable buffer.
             let first = first as usize;
             let new_len = new_len as usize;
-            to_buf[..new_len].copy_from_slice(&from_buf[first..first + new_len]);
+            let current_len = from_buf.len();
+            if first < current_len {
+                let count = new_len.min(current_len - first);
+                to_buf[..count].copy_from_slice(&from_buf[first..first + count]);
+            }
         }
 
         // 27. Return new.
